@@ -296,7 +296,7 @@ fn check(ctx: &Ctx, s: &Script) -> PResult {
 /// replay tier: committed seed corpus and saved fuzzer inputs
 fn corpus_replay(ctx: &Ctx) {
     let root = std::path::Path::new(crate::runner::verif_root()).join("corpus");
-    for dir in ["decoders", "raw_proof", "raw_compressed"] {
+    for dir in ["decoders", "raw_proof", "raw_compressed", "raw_verifier", "raw_pp", "raw_prover"] {
         let Ok(rd) = std::fs::read_dir(root.join(dir)) else { continue };
         let mut files: Vec<_> = rd.filter_map(|e| e.ok()).map(|e| e.path()).collect();
         files.sort();
@@ -321,6 +321,12 @@ pub fn replay_corpus_file(path: &std::path::Path) -> Result<(), Fail> {
         let base = data.first().copied().unwrap_or(0);
         return oracle(mutate::T_COMPRESSED, base, data.get(1..).unwrap_or(&[])).map(|_| ());
     }
+    for (d, t) in [("raw_verifier", T_VERIFIER), ("raw_pp", T_PP), ("raw_prover", T_PROVER)] {
+        if dir.starts_with(d) {
+            let base = data.first().copied().unwrap_or(0);
+            return oracle(t, base, data.get(1..).unwrap_or(&[])).map(|_| ());
+        }
+    }
     if name.starts_with("raw-") {
         let ti = TARGETS.iter().position(|t| dir.starts_with(t)).unwrap_or(0);
         return oracle(ti as u8, 0, &data).map(|_| ());
@@ -338,7 +344,7 @@ pub fn sweeps(ctx: &Ctx) {
     corpus_replay(ctx);
     // fuzz-campaign crash artefacts and summary (written by tools/fuzz_campaign.sh)
     let root = std::path::Path::new(crate::runner::verif_root());
-    for dir in ["decoders", "raw_proof", "raw_compressed"] {
+    for dir in ["decoders", "raw_proof", "raw_compressed", "raw_verifier", "raw_pp", "raw_prover"] {
         let d = root.join("corpus").join(format!("{dir}-crashes"));
         if let Ok(rd) = std::fs::read_dir(&d) {
             let mut files: Vec<_> = rd.filter_map(|e| e.ok()).map(|e| e.path()).collect();
